@@ -290,7 +290,7 @@ class SciPyOptimizer(Optimizer):
                 np.concatenate(constraints, axis=0)
             )
         assert self._normalized_constraints.constraints is not None
-        return self._normalized_constraints.constraints[index, :]
+        return self._normalized_constraints.constraints[index, :].copy()
 
     def _jac(
         self,
@@ -310,7 +310,7 @@ class SciPyOptimizer(Optimizer):
                 np.concatenate(gradients, axis=0)
             )
         assert self._normalized_constraints.gradients is not None
-        return self._normalized_constraints.gradients[index, :]
+        return self._normalized_constraints.gradients[index, :].copy()
 
     def _initialize_constraints_dict(
         self,
@@ -424,8 +424,18 @@ class SciPyOptimizer(Optimizer):
 
         self._set_current_variables(variables)
 
-        function = self._cached_function if get_function else None
-        gradient = self._cached_gradient if get_gradient else None
+        # The algorithm may work in place on the arrays that it receives, it
+        # gets copies of the cached values:
+        function = (
+            self._cached_function.copy()
+            if get_function and self._cached_function is not None
+            else None
+        )
+        gradient = (
+            self._cached_gradient.copy()
+            if get_gradient and self._cached_gradient is not None
+            else None
+        )
 
         compute_functions = get_function and function is None
         compute_gradients = get_gradient and gradient is None
